@@ -26,11 +26,41 @@ CLAIMED = {
         technique="who-may-emit rule over MIR constants + syn templates on the monomorphic writer call graph; table extraction and inverse check",
         design_ref="DESIGN.md section 4 C07",
     ),
+    "C11": dict(
+        level="other",
+        text="Field coverage and direction of <Program as AddAssign>::add_assign: every field of rhs flows into a merging call whose receiver is the same-named field of self, recursively through the local merge helpers (Calibrations::extend, FrameSet::merge, ExternPragmaMap::extend); Add::add is add_assign followed by returning self. Container override/ordering semantics are trusted (C08).",
+        technique="MIR provenance of receiver/argument of each merging call against the ADT field list",
+        design_ref="DESIGN.md section 4 C11",
+    ),
+    "C12": dict(
+        level="other",
+        text="Rule-table soundness by algebra: every arm x operator instance x candidate of simplify_infix / simplify_prefix / simplify_function_call / simplify, extracted from the un-expanded source, is proven (sympy) identically equal to the matched expression and to mention no new symbol; PiConstant is never constructed in the simplifier. Each obligation is decided by algebra (counts of obligations / discharged are in the evidence); it is claimed as 'other', not 'proof', because one rule (0^y -> 0, pinned by an existing test) is a recorded known non-identity, so not every obligation is discharged; floating-point rounding, is_zero/is_one tolerances and termination are not decided; unmodelled arms are listed as undecided.",
+        technique="symbolic interpretation of match arms (syn) + computer algebra decision of rational identities",
+        design_ref="DESIGN.md section 4 C12, section 3 K9",
+    ),
+    "C14": dict(
+        level="proof",
+        text="Both gate tables are evaluated symbolically from their static initialisers in the source and each of the 22 entries is proven equal (sympy) to the Quil specification matrix; key sets must equal the property's gate list and the tables must be the ones reachable from Gate::to_unitary. Proves the table clause for every parameter value; the n-qubit lifting code is not decided.",
+        technique="symbolic evaluation of static initialisers (syn) against an oracle table, decided by computer algebra",
+        design_ref="DESIGN.md section 4 C14",
+    ),
+    "C28": dict(
+        level="other",
+        text="Classification totality of the CFG builder over every body-capable Instruction variant (no catch-all, none skipped except INCLUDE), terminator tables forward and inverse, is_dynamic = ConditionalJump, and dependence of every block-offset increment on the closed block's instruction count and label presence. Decides these structural necessary conditions for all programs; the offset arithmetic itself is not evaluated.",
+        technique="HIR match-arm tables + MIR data/selecting-control dependence queries",
+        design_ref="DESIGN.md section 4 C28",
+    ),
     "C05": dict(
         level="other",
         text="Static rules over the parse-reachable function set: no value-changing numeric cast and no undischarged overflow assert may exist there; every Token::Float construction is dominated by the finite side of is_finite on the same value; lexical Overflow/Underflow map to nom::Err::Failure; lexical float options must not be lossy. Decides that literal-derived values cannot be wrapped/truncated/backtracked on any input; the digit-to-value computation inside `lexical` is trusted.",
         technique="who-may-cast / guard-dominance rules over resolved MIR on the monomorphic parse call graph",
         design_ref="DESIGN.md section 4 C05",
+    ),
+    "C06": dict(
+        level="other",
+        text="Must-not-flow (taint) rule on MIR: the result of every case-mapping / normalising std call in a parse-reachable function (and every copy, to_owned, as_str of it) may reach only comparisons, never a constructed value, a return value or a non-comparison call; lexer keyword enums must be case sensitive. Decides that no normalised copy of an identifier can be stored in the parsed program; byte-level lexing of identifiers is not decided.",
+        technique="intra-procedural taint propagation over MIR on the monomorphic parse call graph",
+        design_ref="DESIGN.md section 4 C06",
     ),
     "C08": dict(
         level="other",
